@@ -108,4 +108,20 @@ def emitsUnlocked (locked : Bool) : List PStep → Bool
   | .unlock :: tl => emitsUnlocked false tl
   | .emit :: tl => !locked && emitsUnlocked locked tl
 
+/-! ## one callback per kind of news: where the unwind guards sit
+
+Some layers report through single callbacks, one per kind of news, instead of a listener list (reconnect:
+`on_state_change`, `on_reconnect`), and one moment of the call path may be reported to several of them — a reconnect
+attempt starts: `on_state_change(Disconnected, Reconnecting)`, then `on_reconnect(attempt)`. Each of them is an observer
+like any listener. `notifyFrom i groups e` runs the callbacks in order, every GROUP under one `catch_unwind`: a panic
+leaves the group — the rest of the group is skipped — and is caught at the group's guard (nothing escapes into the
+call). The code's way is one guard per callback: `groups = cbs.map ([·])`. -/
+
+def notifyFrom {Event : Type} (i : Nat) : List (List (Listener Event)) → Event → List Nat
+  | [], _ => []
+  | g :: gs, e => (emitNoCatchFrom i g e).ran ++ notifyFrom (i + g.length) gs e
+
+/-- which callbacks (by position) were told the news -/
+def notify {Event : Type} (groups : List (List (Listener Event))) (e : Event) : List Nat := notifyFrom 0 groups e
+
 end TR.Listeners
